@@ -3,6 +3,7 @@ package main
 import (
 	"fmt"
 	"go/types"
+	"regexp"
 	"sort"
 	"strings"
 	"sync"
@@ -32,6 +33,7 @@ type geHarness struct {
 	vals    map[string]mv
 	trace   []string
 	nres    int
+	set     int    // which of two variable / function sets the next evaluation is given (1 or 2)
 	writes  string // a mutating call the evaluator made on the caller's collections
 	failAt  int    // 1-based index of the operation that fails (0 = none)
 	nops    int
@@ -41,7 +43,7 @@ type geHarness struct {
 }
 
 func (c *Ctx) newGeHarness() *geHarness {
-	h := &geHarness{c: c, names: map[*mv]string{}, vals: map[string]mv{}, fns: map[string]*ssa.Function{}, inTrue: true}
+	h := &geHarness{c: c, names: map[*mv]string{}, vals: map[string]mv{}, fns: map[string]*ssa.Function{}, inTrue: true, set: 1}
 	h.gx = c.newGxHarness()
 	h.m = h.gx.m
 	if h.gx.fault != "" {
@@ -78,7 +80,13 @@ func (h *geHarness) mk(ctor string, args ...mv) mv {
 }
 
 func (h *geHarness) operand(name string) mv {
-	if v, ok := h.vals[name]; ok {
+	key := name
+	prefix := "val:"
+	if h.set == 2 {
+		key = "2:" + name
+		prefix = "val2:"
+	}
+	if v, ok := h.vals[key]; ok {
 		return v
 	}
 	var v mv
@@ -92,11 +100,11 @@ func (h *geHarness) operand(name string) mv {
 	case "z":
 		v = h.mk("VariantFromInteger", int64(0))
 	default:
-		v = h.mk("VariantFromString", "val:"+name)
+		v = h.mk("VariantFromString", prefix+name)
 	}
-	h.vals[name] = v
+	h.vals[key] = v
 	if p, ok := v.(*mv); ok {
-		h.names[p] = "val:" + name
+		h.names[p] = prefix + name
 	}
 	return v
 }
@@ -131,11 +139,14 @@ func (h *geHarness) nameOf(v mv) string {
 
 func (h *geHarness) symCall(m *mach, recv *mSym, method *types.Func, args []mv) (mv, bool) {
 	switch {
-	case recv.name == "vars" && method.Name() == "FindByName":
+	case (recv.name == "vars" || recv.name == "vars2") && method.Name() == "FindByName":
 		n, _ := args[0].(string)
 		return &mSym{name: "var:" + n, nonNil: true}, true
 	case strings.HasPrefix(recv.name, "var:") && method.Name() == "Value":
 		return h.operand(strings.TrimPrefix(recv.name, "var:")), true
+	case recv.name == "funcs2" && method.Name() == "FindByName":
+		n, _ := args[0].(string)
+		return &mSym{name: "fn:" + n + "@2", nonNil: true}, true
 	case recv.name == "funcs" && method.Name() == "FindByName":
 		n, _ := args[0].(string)
 		return &mSym{name: "fn:" + n, nonNil: true}, true
@@ -148,16 +159,16 @@ func (h *geHarness) symCall(m *mach, recv *mSym, method *types.Func, args []mv) 
 		}
 		opsName := h.nameOf(args[1])
 		return h.result("call "+strings.TrimPrefix(recv.name, "fn:")+"("+strings.Join(as, ",")+") with "+opsName, false), true
-	case recv.name == "vars" || recv.name == "funcs":
+	case recv.name == "vars" || recv.name == "funcs" || recv.name == "vars2" || recv.name == "funcs2":
 		// anything but a lookup changes the caller's collection (Locate creates, Add / Remove / Clear …)
 		switch method.Name() {
 		case "FindIndexByName", "Length", "Get", "GetAll":
 			return nil, false
 		}
 		if h.writes == "" {
-			h.writes = "the evaluator calls " + method.Name() + " on the caller's " + map[string]string{"vars": "variable", "funcs": "function"}[recv.name] + " collection"
+			h.writes = "the evaluator calls " + method.Name() + " on the caller's " + map[string]string{"vars": "variable", "funcs": "function", "vars2": "variable", "funcs2": "function"}[recv.name] + " collection"
 		}
-		if recv.name == "vars" {
+		if strings.HasPrefix(recv.name, "vars") {
 			n, _ := args[0].(string)
 			return &mSym{name: "var:" + n, nonNil: true}, true
 		}
@@ -250,7 +261,11 @@ func (h *geHarness) evaluate(ls []lexeme, failAt int, reparse bool) geResult {
 	}
 	sort.Strings(known)
 	before := h.snapshot(known)
-	r, out := h.m.Call(ev, h.calc, &mSym{name: "vars", nonNil: true}, &mSym{name: "funcs", nonNil: true})
+	varsName, funcsName := "vars", "funcs"
+	if h.set == 2 {
+		varsName, funcsName = "vars2", "funcs2"
+	}
+	r, out := h.m.Call(ev, h.calc, &mSym{name: varsName, nonNil: true}, &mSym{name: funcsName, nonNil: true})
 	if h.writes != "" {
 		return geResult{kind: "mutated", trace: h.trace, why: h.writes}
 	}
@@ -352,6 +367,8 @@ func geOracle(ls []lexeme, rpn []string, spec map[string]evalSpec, inTrue bool) 
 	}
 	return
 }
+
+var reCallName = regexp.MustCompile(`call ([A-Za-z0-9_]+)\(`)
 
 type geVerdict struct {
 	name       string
@@ -464,6 +481,23 @@ func (c *Ctx) geRun() []*geVerdict {
 					again := h.evaluate(ls, 0, false)
 					if again.kind == "ok" && (strings.Join(again.trace, "; ") != strings.Join(wantTrace, "; ") || again.result != wantRes) || again.kind == "error" || again.kind == "panic" {
 						r.bad = fmt.Sprintf("evaluating %s a second time gives [%s] → %s %s, the first time [%s] → %s", show, strings.Join(again.trace, "; "), again.kind, again.result, strings.Join(wantTrace, "; "), wantRes)
+					}
+					// interleaved with an evaluation under another variable set and another function table:
+					// that evaluation uses only the other set, and the first set's results are unaffected
+					if r.bad == "" {
+						h.set = 2
+						other := h.evaluate(ls, 0, false)
+						h.set = 1
+						wantOther := strings.ReplaceAll(strings.Join(wantTrace, "; "), "val:", "val2:")
+						wantOther = reCallName.ReplaceAllString(wantOther, "call $1@2(")
+						gotOther := strings.Join(other.trace, "; ")
+						if other.kind == "ok" && gotOther != wantOther {
+							r.bad = fmt.Sprintf("evaluating %s with a second variable set and function table applies [%s]; with only that set's variables and functions it is [%s]: something resolved in an earlier evaluation is reused", show, gotOther, wantOther)
+						}
+						back := h.evaluate(ls, 0, false)
+						if back.kind == "ok" && r.bad == "" && (strings.Join(back.trace, "; ") != strings.Join(wantTrace, "; ") || back.result != wantRes) {
+							r.bad = fmt.Sprintf("after an evaluation of %s under another variable set, evaluating with the first set gives [%s] → %s instead of [%s] → %s", show, strings.Join(back.trace, "; "), back.result, strings.Join(wantTrace, "; "), wantRes)
+						}
 					}
 					// a failing operation ends the evaluation with its error, and the next evaluation is unaffected
 					if len(wantTrace) > 0 && r.bad == "" && i%3 == 0 {
